@@ -243,15 +243,17 @@ fn zero_tail(z: usize, truncate: Option<bool>) {
 // shortest record, longer than it (decodes as SaveVote((0,0)) with checksum 0:
 // with real CRC the checksum of 6 zero bytes is not 0, so this is "damaged";
 // with crc=off it would be a valid record - hence crc = real here)
-// @harness name=c10_zero_tail_3 prop=C10 tier=quick timeout=900 fs=512 allow_unsat=refused
+// @harness name=c10_zero_tail_3 prop=C10 tier=quick timeout=900 fs=128 allow_unsat=refused
 replay_proof! { unwind = 26, crc = real, fn c10_zero_tail_3() { zero_tail(3, None); } }
-// @harness name=c10_zero_tail_4 prop=C10 tier=thorough timeout=900 fs=512 allow_unsat=refused
+// @harness name=c10_zero_tail_4 prop=C10 tier=thorough timeout=900 fs=128 allow_unsat=refused
 replay_proof! { unwind = 26, crc = real, fn c10_zero_tail_4() { zero_tail(4, None); } }
-// @harness name=c10_zero_tail_9 prop=C10 tier=quick timeout=900 fs=512 allow_unsat=refused
+// @harness name=c10_zero_tail_9 prop=C10 tier=quick timeout=900 fs=128 allow_unsat=refused
 replay_proof! { unwind = 26, crc = real, fn c10_zero_tail_9() { zero_tail(9, None); } }
-// @harness name=c10_zero_tail_20 prop=C10 tier=quick timeout=1200 fs=512 allow_unsat=refused
+// @harness name=c10_zero_tail_20 prop=C10 tier=quick timeout=1200 fs=128 allow_unsat=refused
 replay_proof! { unwind = 26, crc = real, fn c10_zero_tail_20() { zero_tail(20, Some(true)); } }
-// @harness name=c10_zero_tail_9_off prop=C10 tier=quick timeout=900 fs=512 allow_unsat=truncated
+// @harness name=c10_zero_tail_20_off prop=C10 tier=quick timeout=1200 fs=128 allow_unsat=truncated
+replay_proof! { unwind = 26, crc = real, fn c10_zero_tail_20_off() { zero_tail(20, Some(false)); } }
+// @harness name=c10_zero_tail_9_off prop=C10 tier=thorough timeout=900 fs=128 allow_unsat=truncated
 replay_proof! { unwind = 26, crc = real, fn c10_zero_tail_9_off() { zero_tail(9, Some(false)); } }
 
 /// truncation disabled: any cut makes open fail and leaves the file untouched
@@ -291,12 +293,28 @@ replay_proof! {
 // non-zero mask), checksums are the real CRC-32. `Chunk::open` must fail and
 // must not touch the file.
 
-/// flip positions `rec_start + from .. rec_start + to` of record `rec` (1 = head
-/// State, 2 = Commit, 3 = Append, 4 = the last record)
-fn flip_range(last: u8, rec: usize, from: usize, to: usize) {
+/// [State(empty) | R2 | Commit v] with R2 = Commit c (mid = 0) or Append a
+/// (1 byte, mid = 1). Short on purpose: with the real CRC every checksum
+/// comparison over symbolic bytes is a symbolic branch, and symbolic execution
+/// walks the error path (handle_record_error, verify_trailing_zeros over the
+/// rest of the file) after every record.
+fn image_small(s: &Sym, mid: u8) -> [usize; 3] {
+    unsafe { gfs::FORCE_SLOT = Some(0) };
+    let mut im = Img::new(0, 0);
+    let e0 = im.state(None, None, None, None, None);
+    let e1 = if mid == 1 { im.append(s.a, PR::new(1, s.b)) } else { im.commit(s.c) };
+    // mid == 2: the altered record is the last one of a two-record chunk
+    let e2 = if mid == 2 { e1 } else { im.commit(s.v) };
+    im.commit_len();
+    [e0, e1, e2]
+}
+
+/// flip positions `rec_start + from .. rec_start + to` of record `rec` (2 = the
+/// record in the middle, 3 = the last record)
+fn flip_range(mid: u8, rec: usize, from: usize, to: usize) {
     let s = sym();
-    let ends = image(&s, last);
-    let start = if rec == 1 { 0 } else { ends[rec - 2] };
+    let ends = image_small(&s, mid);
+    let start = ends[rec - 2];
     let mut k = from;
     while k < to {
         let pos = start + k;
@@ -314,7 +332,7 @@ fn flip_range(last: u8, rec: usize, from: usize, to: usize) {
             Err(e) => {
                 core::mem::forget(e);
                 let f = &gfs::fs().files[0];
-                assert!(f.n_set_len == 0 && f.n_write == 0 && f.len == ends[3] as u64, "refused open modified the file");
+                assert!(f.n_set_len == 0 && f.n_write == 0 && f.len == ends[2] as u64, "refused open modified the file");
                 kani::cover!(true, "alteration reported");
             }
         }
@@ -323,43 +341,45 @@ fn flip_range(last: u8, rec: usize, from: usize, to: usize) {
     }
 }
 
-// record in the middle of the chunk (Commit: 4 type + 2 id + 8 checksum)
-// @harness name=c09_flip_mid_id prop=C09 tier=quick timeout=1500 fs=512
-replay_proof! { unwind = 26, crc = real, fn c09_flip_mid_id() { flip_range(2, 2, 4, 6); } }
-// @harness name=c09_flip_mid_crc_lo prop=C09 tier=quick timeout=1500 fs=512
-replay_proof! { unwind = 26, crc = real, fn c09_flip_mid_crc_lo() { flip_range(2, 2, 10, 12); } }
-// @harness name=c09_flip_mid_crc_hi prop=C09 tier=thorough timeout=1500 fs=512
-replay_proof! { unwind = 26, crc = real, fn c09_flip_mid_crc_hi() { flip_range(2, 2, 6, 10); } }
-// @harness name=c09_flip_mid_crc_lo2 prop=C09 tier=thorough timeout=1500 fs=512
-replay_proof! { unwind = 26, crc = real, fn c09_flip_mid_crc_lo2() { flip_range(2, 2, 12, 14); } }
-// type word of the record in the middle: the altered type makes the decoder
-// read the following bytes as another record kind
-// @harness name=c09_flip_mid_type prop=C09 tier=thorough timeout=3000 fs=512
-replay_proof! { unwind = 26, crc = real, fn c09_flip_mid_type() { flip_range(2, 2, 3, 4); } }
-// @harness name=c09_flip_mid_type_hi prop=C09 tier=thorough timeout=1500 fs=512
-replay_proof! { unwind = 26, crc = real, fn c09_flip_mid_type_hi() { flip_range(2, 2, 0, 3); } }
-// payload of an Append in the middle
-// @harness name=c09_flip_append_payload prop=C09 tier=quick timeout=1500 fs=512
-replay_proof! { unwind = 26, crc = real, fn c09_flip_append_payload() { flip_range(2, 3, 7, 8); } }
-// the last record of the chunk: id and checksum bytes (a changed value, not a
-// changed length)
-// @harness name=c09_flip_last_id prop=C09 tier=quick timeout=1500 fs=512
-replay_proof! { unwind = 26, crc = real, fn c09_flip_last_id() { flip_range(2, 4, 4, 6); } }
-// @harness name=c09_flip_last_crc prop=C09 tier=thorough timeout=1500 fs=512
-replay_proof! { unwind = 26, crc = real, fn c09_flip_last_crc() { flip_range(2, 4, 10, 14); } }
+// the last record of a two-record chunk (Commit: 4 type + 2 id + 8 checksum)
+// @harness name=c09_flip_id prop=C09 tier=quick timeout=1500 fs=128
+replay_proof! { unwind = 16, crc = real, fn c09_flip_id() { flip_range(2, 2, 4, 5); } }
+// @harness name=c09_flip_id2 prop=C09 tier=thorough timeout=1500 fs=128
+replay_proof! { unwind = 16, crc = real, fn c09_flip_id2() { flip_range(2, 2, 5, 6); } }
+// @harness name=c09_flip_crc_lo prop=C09 tier=quick timeout=1500 fs=128
+replay_proof! { unwind = 16, crc = real, fn c09_flip_crc_lo() { flip_range(2, 2, 13, 14); } }
+// @harness name=c09_flip_crc_hi prop=C09 tier=thorough timeout=1500 fs=128
+replay_proof! { unwind = 16, crc = real, fn c09_flip_crc_hi() { flip_range(2, 2, 6, 8); } }
+// @harness name=c09_flip_crc_mid prop=C09 tier=thorough timeout=3000 fs=128
+replay_proof! { unwind = 16, crc = real, fn c09_flip_crc_mid() { flip_range(2, 2, 10, 13); } }
+// a record in the middle of the chunk (one more record follows it)
+// @harness name=c09_flip_mid_id prop=C09 tier=thorough timeout=3000 fs=128
+replay_proof! { unwind = 30, crc = real, fn c09_flip_mid_id() { flip_range(0, 2, 4, 5); } }
+// payload byte of an Append in the middle
+// @harness name=c09_flip_append_payload prop=C09 tier=thorough timeout=3000 fs=128
+replay_proof! { unwind = 32, crc = real, fn c09_flip_append_payload() { flip_range(1, 2, 7, 8); } }
+// type word: the altered type makes the decoder read the following bytes as
+// another record kind
+// @harness name=c09_flip_type prop=C09 tier=thorough timeout=3000 fs=128
+replay_proof! { unwind = 16, crc = real, fn c09_flip_type() { flip_range(2, 2, 3, 4); } }
 
 // KNOWN FINDING KF-C09-eof-absorbed: an alteration that makes the decoder
 // want more bytes than the file holds (here: the Option tag of a final
 // TruncateAfter(None) becomes 1, so an id is expected) ends in UnexpectedEof,
 // which recovery takes for a torn tail: the record is silently cut away and
 // open succeeds.
-// @harness name=c09_known_eof_absorbed prop=C09 tier=quick timeout=1500 fs=512 kind=known
+// @harness name=c09_known_eof_absorbed prop=C09 tier=quick timeout=1500 fs=128 kind=known
 replay_proof! {
-    unwind = 26, crc = real,
+    unwind = 16, crc = real,
     fn c09_known_eof_absorbed() {
         let s = sym();
-        let ends = image(&s, 3);
-        let pos = ends[2] + 4;
+        unsafe { gfs::FORCE_SLOT = Some(0) };
+        let mut im = Img::new(0, 0);
+        im.state(None, None, None, None, None);
+        let e1 = im.commit(s.c);
+        im.truncate_after(None);
+        im.commit_len();
+        let pos = e1 + 4;
         gfs::bytes(0)[pos] = 1;
         reset_counters();
         let r = Chunk::<RTypes>::open(replay_config(None), ChunkId(0));
